@@ -12,6 +12,6 @@ Extraction "extract/model.ml"
   bc_validate ss_validate calc_max_leverage em_validate u32_to_basis basis_to_u32 bank_configure
   bank_configure_unfrozen reconcile_emode_configs calc_value_dec ix_add_bank ix_add_bank_permissionless
   ix_configure_bank ix_configure_interest_only ix_configure_limits_only ix_configure_emode ix_clone_emode
-  ix_propagate_staked ix_group_set_caps ix_init_staked_settings ix_edit_staked_settings es_zeroed
-  account_health account_health_no_emode apply_reqs OP_KILLED DEFAULT_INIT_MAX_EMODE_LEVERAGE
+  ix_propagate_staked ix_migrate_curve ix_group_set_caps ix_init_staked_settings ix_edit_staked_settings es_zeroed
+  account_health account_health_no_emode probe_position apply_reqs OP_KILLED DEFAULT_INIT_MAX_EMODE_LEVERAGE
   DEFAULT_MAINT_MAX_EMODE_LEVERAGE.
